@@ -63,6 +63,8 @@ def show(ast):
         return f"({show(ast[1])})**{ast[2]}"
     if t == "atan2":
         return f"atan2({show(ast[1])}, {show(ast[2])})"
+    if t == "clip":
+        return f"clip({show(ast[1])}, {show(ast[2])}, {show(ast[3])})"
     op = {"add": "+", "sub": "-", "mul": "*", "div": "/"}[t]
     return f"({show(ast[1])} {op} {show(ast[2])})"
 
@@ -116,7 +118,7 @@ def is_polynomial(ast):
     t = ast[0]
     if t in ("sym", "dt", "const"):
         return True
-    if t in ("fn", "div", "atan2"):
+    if t in ("fn", "div", "atan2", "clip"):
         return False
     if t == "pow":
         return int(ast[2]) > 0 and is_polynomial(ast[1])
@@ -377,6 +379,22 @@ def family_extreme():
     return [mk("steep-logistic", add(div(C(1), add(C(1), fn("exp", steep))), mul(C(1, 2), S("u")))),
             mk("steep-logistic-shared", add(div(S("c"), add(C(1), fn("exp", steep))), div(S("u"), add(C(2), fn("exp", steep))))),
             mk("steep-tanh-exp", add(fn("tanh", fn("exp", steep)), mul(fn("tanh", fn("exp", steep)), S("u"))))]
+
+
+def family_piecewise():
+    """saturation / dead-band constructs (sympy Piecewise with comparisons), alone and SHARED by several outputs so that CSE
+    hoists them into a temporary; evaluation points fall on both sides of the bounds"""
+    x, y, u, c = S("x"), S("y"), S("u"), S("c")
+    sat = ["clip", u, C(-1), C(1)]
+    sat2 = ["clip", add(x, mul(C(1, 2), y)), C(-3, 4), C(5, 4)]
+
+    def mk(name, exprs):
+        st = ["y", "x"] if len(exprs) == 2 else ["z", "y", "x"]
+        return mkdef(f"pw-{name}", st, ["u"], ["c"], [[n, e] for n, e in zip(st, exprs)], [["c", 0.625]], [["u", 0.25]])
+    return [mk("sat-single", [add(y, mul(DT, sat)), x]),
+            mk("sat-shared", [add(y, mul(DT, sat)), add(x, mul(mul(C(1, 2), DT), mul(sat, c))), mul(sat, sat)]),
+            mk("sat-state-shared", [add(y, mul(DT, sat2)), mul(sat2, add(u, c))]),
+            mk("sat-nested", [add(fn("sin", sat2), mul(sat2, sat)), add(x, mul(sat, sat2)), add(sat, sat2)])]
 
 
 def family_ops(tier):
